@@ -20,6 +20,11 @@ def generate(lean_dir: str):
         out.append(tr.function(fn))
         out.append("\n")
         known[name] = name
+    # the bound on the number of grid cells one Plane operation may touch
+    mc = P.literal(P.find_assign(mod, "Plane.MAXCELLS"))
+    if not (isinstance(mc, int) and not isinstance(mc, bool) and mc > 0):
+        raise P.Untranslatable("Plane.MAXCELLS is not a positive int literal")
+    out.append("def PLANE_MAXCELLS : Nat := %d\n\n" % mc)
     out.append("end PdfVerif.Gen.Utils\n")
     path = os.path.join(lean_dir, "PdfVerif", "Gen", "Utils.lean")
     P.write_if_changed(path, "".join(out))
